@@ -3,7 +3,7 @@
    the extracted datatypes. *)
 From Coq Require Import ZArith List Floats.
 From Coq Require Import ExtrOcamlBasic ExtrOCamlFloats ExtrOCamlInt63.
-From SC Require Import Num Vec3 Kernel FloatIO Grid Integrator CellCycle Mesh Geometry Forces MeshOps Population Vtk.
+From SC Require Import Num Vec3 Kernel FloatIO Grid Integrator CellCycle Mesh Geometry Forces MeshOps Population Vtk Params Params_gen.
 
 Definition kernel_f := kernel NumF.
 
@@ -70,6 +70,13 @@ Definition pop_inv_b := popinv_b.
 Definition vtk_write := @write_file.
 Definition vtk_read := @read_file.
 
+(* C18/C17: parameter reader; the tables are the ones regenerated from parameter_reader.cpp (Params_gen.v) *)
+Definition par_numerical {T V} stod stoi is_inf lower inf empty ltb0 leb0 ltb :=
+  @decode_numerical T V stod stoi is_inf lower inf empty ltb0 leb0 ltb num_table.
+Definition par_cell_types {T V} stod stoi is_inf lower inf empty ltb0 leb0 ltb :=
+  @decode_cell_types T V stod stoi is_inf lower inf empty ltb0 leb0 ltb cell_table face_table.
+Definition par_translation_ok := translation_ok.
+
 Extraction Language OCaml.
 Extraction "model.ml" NumF kernel_f
   grid_dims_f grid_idx3_f grid_in_range_f grid_flat_f grid_empty_f grid_place_f grid_nbh_f grid_content_f grid_content_at_f
@@ -81,4 +88,5 @@ Extraction "model.ml" NumF kernel_f
   frc_refresh_f frc_pressure_f frc_tension_f frc_anglereg_f frc_bending_f
   ops_replay_f ops_guards_f
   pop_init pop_step pop_inv_b
-  vtk_write vtk_read.
+  vtk_write vtk_read
+  par_numerical par_cell_types par_translation_ok.
